@@ -214,10 +214,16 @@ def run(ctx):
         base = ctx.find_calls(f, "^" + re.escape(vb % "core::Core") + "$")
         ctx.ob("C10.P.body-rules-chain", f.key, "container.validate_body(errors)", len(base) == 1, "chain")
     for chain in ("from_derive::FdiOptions", "from_variant::FromVariantOptions", "from_attributes::FromAttributesOptions", "from_field::FromFieldOptions", "from_type_param::FromTypeParamOptions"):
-        f = ctx.fn(vb % chain)
+        f = ctx.fn(vb % chain, required=False)
         if f:
             base = ctx.find_calls(f, "^" + re.escape(vb % "outer_from::OuterFrom") + "$")
             ctx.ob("C10.P.body-rules-chain", f.key, "base.validate_body(errors)", len(base) == 1, "element-level options must run OuterFrom's body rules")
+    # the trait default of validate_body is a no-op: every options type must override it (else the body rules never run)
+    for chain in ("core::Core", "outer_from::OuterFrom", "from_meta::FromMetaOptions", "from_derive::FdiOptions", "from_variant::FromVariantOptions",
+                  "from_attributes::FromAttributesOptions", "from_field::FromFieldOptions", "from_type_param::FromTypeParamOptions"):
+        imp = [i for i in core["impls"] if i["trait"] == "darling_core::options::ParseData" and i["self"] == "darling_core::options::" + chain]
+        ctx.ob("C10.S.validate-body-overridden", "<darling_core::options::%s as ParseData>" % chain, "overrides validate_body", len(imp) == 1 and "validate_body" in imp[0]["items"],
+               "ParseData items: %s (the default validate_body is a no-op, so the single-flatten / attrs-needs-forward_attrs rules would never run for this derive)" % [i["items"] for i in imp])
     f = ctx.fn("darling_core::options::ParseData::parse_body")
     if f:
         v = ctx.find_calls(f, r"ParseData>::validate_body$")
